@@ -7,7 +7,7 @@ use yata::core::{Candle, Method, PeriodType, ValueType};
 use yata::helpers::Peekable;
 use yata::methods::*;
 
-fn params() -> (PeriodType, usize, ValueType) {
+fn c02_params() -> (PeriodType, usize, ValueType) {
 	let n = rsx::param("n") as PeriodType;
 	let t = rsx::param("t") as usize;
 	// scale of the rounding allowance for native replay: (n + t + 8), kappa applied per method
@@ -20,7 +20,7 @@ fn prehistory(v0: ValueType, copies: usize) -> Vec<ValueType> {
 }
 
 pub fn c02_sma() {
-	let (n, t, scale) = params();
+	let (n, t, scale) = c02_params();
 	let v0 = rsx::val("v0");
 	let mut m = SMA::new(n, &v0).unwrap();
 	let mut hist = prehistory(v0, n as usize);
@@ -35,7 +35,7 @@ pub fn c02_sma() {
 }
 
 pub fn c02_wma() {
-	let (n, t, scale) = params();
+	let (n, t, scale) = c02_params();
 	let v0 = rsx::val("v0");
 	let mut m = WMA::new(n, &v0).unwrap();
 	let mut hist = prehistory(v0, n as usize);
@@ -50,7 +50,7 @@ pub fn c02_wma() {
 }
 
 pub fn c02_swma() {
-	let (n, t, scale) = params();
+	let (n, t, scale) = c02_params();
 	let v0 = rsx::val("v0");
 	let mut m = SWMA::new(n, &v0).unwrap();
 	let mut hist = prehistory(v0, n as usize);
@@ -67,7 +67,7 @@ pub fn c02_swma() {
 }
 
 pub fn c02_trima() {
-	let (n, t, scale) = params();
+	let (n, t, scale) = c02_params();
 	let v0 = rsx::val("v0");
 	let mut m = TRIMA::new(n, &v0).unwrap();
 	let mut hist = prehistory(v0, 2 * n as usize);
@@ -83,7 +83,7 @@ pub fn c02_trima() {
 }
 
 pub fn c02_hma() {
-	let (n, t, scale) = params();
+	let (n, t, scale) = c02_params();
 	let v0 = rsx::val("v0");
 	let mut m = HMA::new(n, &v0).unwrap();
 	let nn = n as usize;
@@ -110,7 +110,7 @@ pub fn c02_hma() {
 }
 
 pub fn c02_linreg() {
-	let (n, t, scale) = params();
+	let (n, t, scale) = c02_params();
 	let v0 = rsx::val("v0");
 	let mut m = LinReg::new(n, &v0).unwrap();
 	let mut hist = prehistory(v0, n as usize);
@@ -125,7 +125,7 @@ pub fn c02_linreg() {
 }
 
 pub fn c02_conv() {
-	let (n, t, scale) = params();
+	let (n, t, scale) = c02_params();
 	let v0 = rsx::val("v0");
 	let mut weights: Vec<ValueType> = Vec::new();
 	let mut wsum = 0.0;
@@ -155,7 +155,7 @@ pub fn c02_conv() {
 }
 
 pub fn c02_vwma() {
-	let (n, t, scale) = params();
+	let (n, t, scale) = c02_params();
 	let p0 = rsx::val("p0");
 	let q0 = rsx::val("q0");
 	rsx::assume(q0 > 0.001);
@@ -186,7 +186,7 @@ pub fn c02_vwma() {
 }
 
 pub fn c02_integral() {
-	let (n, t, scale) = params();
+	let (n, t, scale) = c02_params();
 	let v0 = rsx::val("v0");
 	let mut m = Integral::new(n, &v0).unwrap();
 	let mut hist = prehistory(v0, n as usize);
@@ -201,7 +201,7 @@ pub fn c02_integral() {
 }
 
 pub fn c02_derivative() {
-	let (n, t, scale) = params();
+	let (n, t, scale) = c02_params();
 	let v0 = rsx::val("v0");
 	let mut m = Derivative::new(n, &v0).unwrap();
 	let mut hist = prehistory(v0, n as usize + 1);
@@ -215,7 +215,7 @@ pub fn c02_derivative() {
 }
 
 pub fn c02_momentum() {
-	let (n, t, scale) = params();
+	let (n, t, scale) = c02_params();
 	let v0 = rsx::val("v0");
 	let mut m = Momentum::new(n, &v0).unwrap();
 	let mut hist = prehistory(v0, n as usize + 1);
@@ -229,7 +229,7 @@ pub fn c02_momentum() {
 }
 
 pub fn c02_roc() {
-	let (n, t, scale) = params();
+	let (n, t, scale) = c02_params();
 	let v0 = rsx::val("v0");
 	rsx::assume(v0 > 0.001);
 	let mut m = RateOfChange::new(n, &v0).unwrap();
@@ -246,7 +246,7 @@ pub fn c02_roc() {
 }
 
 pub fn c02_past() {
-	let (n, t, _scale) = params();
+	let (n, t, _scale) = c02_params();
 	let v0 = rsx::val("v0");
 	let mut m = Past::new(n, &v0).unwrap();
 	let mut hist = prehistory(v0, n as usize + 1);
@@ -260,7 +260,7 @@ pub fn c02_past() {
 }
 
 pub fn c02_stdev() {
-	let (n, t, scale) = params();
+	let (n, t, scale) = c02_params();
 	let v0 = rsx::val("v0");
 	let mut m = StDev::new(n, &v0).unwrap();
 	let mut hist = prehistory(v0, n as usize);
@@ -286,7 +286,7 @@ pub fn c02_stdev() {
 }
 
 pub fn c02_meanabsdev() {
-	let (n, t, scale) = params();
+	let (n, t, scale) = c02_params();
 	let v0 = rsx::val("v0");
 	let mut m = MeanAbsDev::new(n, &v0).unwrap();
 	let mut hist = prehistory(v0, n as usize);
@@ -307,7 +307,7 @@ pub fn c02_meanabsdev() {
 }
 
 pub fn c02_medianabsdev() {
-	let (n, t, scale) = params();
+	let (n, t, scale) = c02_params();
 	let v0 = rsx::val("v0");
 	let mut m = MedianAbsDev::new(n, &v0).unwrap();
 	let mut hist = prehistory(v0, n as usize);
@@ -328,7 +328,7 @@ pub fn c02_medianabsdev() {
 }
 
 pub fn c02_cci() {
-	let (n, t, scale) = params();
+	let (n, t, scale) = c02_params();
 	let v0 = rsx::val("v0");
 	let mut m = CCI::new(n, &v0).unwrap();
 	let mut hist = prehistory(v0, n as usize);
@@ -351,7 +351,7 @@ pub fn c02_cci() {
 }
 
 pub fn c02_linvol() {
-	let (n, t, scale) = params();
+	let (n, t, scale) = c02_params();
 	let v0 = rsx::val("v0");
 	let mut m = LinearVolatility::new(n, &v0).unwrap();
 	let mut hist = prehistory(v0, n as usize + 1);
@@ -370,7 +370,7 @@ pub fn c02_linvol() {
 }
 
 pub fn c02_adi() {
-	let (n, t, scale) = params();
+	let (n, t, scale) = c02_params();
 	let c0 = valid_candle_i(1000);
 	let mut m = ADI::new(n, &c0).unwrap();
 	let mut hist: Vec<ValueType> = prehistory(r_clv(&c0) * c0.volume, n as usize);
